@@ -318,7 +318,10 @@ func (c *updater) buildBackendAuthHTTP(d *backData) {
 		if authSecret.Value == "" {
 			continue
 		}
-		secretName := authSecret.Value
+		// secretName names the userlist and the tracking, so it needs to identify
+		// the secret itself and not the way it was referenced: `name`, `/name` and
+		// `secret://name` are all a secret in the namespace of the source.
+		secretName := strings.TrimPrefix(strings.TrimPrefix(authSecret.Value, "secret://"), "/")
 		if !strings.Contains(secretName, "/") {
 			secretName = authSecret.Source.Namespace + "/" + secretName
 		}
